@@ -204,7 +204,7 @@ func runC22(c *Ctx) {
 	if len(ucs) != 1 {
 		c.Undecided("undoDisconnect#reconnect", uD.Pos(), fmt.Sprintf("expected one repo.Connect, found %d", len(ucs)))
 	} else {
-		setups := CallsMatching(uD, setupSec)
+		setups := P.CallsMatchingDeep(uD, setupSec)
 		c.Check(len(setups) == 2, "undoDisconnect#two-setups", uD.Pos(), "both sides regenerated", fmt.Sprintf("expected 2 setupSnapSecurity calls in undoDisconnect, found %d", len(setups)))
 		for i, su := range setups {
 			c.Before(fmt.Sprintf("undoDisconnect#reconnect-before-profiles#%d", i+1), uD, SinkIs(ucs[0]), "repo.Connect(...)", su, nil)
